@@ -283,6 +283,11 @@ impl C18 {
             let flags = ax.verif_rflags();
             let rcx = ax.reg_read_64(SR::RCX).unwrap_or(0);
             let rsp = ax.reg_read_64(SR::RSP).unwrap_or(0);
+            if steps % 5 == 2 {
+                if let Some(d) = perturb(&mut ax, rng, &Perturb { areas: true, hooks: true, clone: true }) {
+                    return fail(col, "neutral-operation-visible", d, steps);
+                }
+            }
             let ins = decode_at(&prog.code, proggen::CODE_AT, rip);
             col.publish("trace", &prog.shape);
             let r = call(|| block_on(ax.step()));
